@@ -152,8 +152,8 @@ Definition lost_session (k : c09case) : bool :=
      repairs of the client side;
    10 shallow clocks and a reply computed against a stale lastPushData (after
      a Sync) that the weak shallow checksum accepted by coincidence;
-   8 per-mutation sync and a reconnect (RemoteHello keeps the tracer's
-     dataQueue: the next chain starts below the re-memorised lastPushData);
+   (8 was: per-mutation sync and a reconnect, RemoteHello kept the tracer's
+     dataQueue - repaired by aabeecb, now plain class 3);
    2 shallow clocks; 3 per-mutation sync; 1 a reply was overtaken by a push;
    7 reconnect; 4 a full Sync was applied; 0 none of these.
    (old code: 4 was "silent push", 8 "placeholder pushed", 5 "a Sync happened") *)
@@ -184,7 +184,6 @@ Definition cls (k : c09case) : N :=
   else if negb (Nat.eqb (cl_errs (st_cl s)) 0) then 5
   else if negb (s_m (k_hello_src k) =? 0)
           && negb (p_hello_m (k_p k) && p_sync_m (k_p k)) then 6
-  else if p_mut (k_p k) && dropped k then 8
   else if shallow (p_codec (k_p k)) then 2
   else if p_mut (k_p k) then 3
   else if raced k then 1
